@@ -4,6 +4,6 @@ From GoSecs Require Import Gen.Gen Hsms.Responder Hsms.ResponderSpec.
 Extraction Language OCaml.
 Extraction "c08_model.ml"
   Z.add Z.mul Z.opp Z.sub Z.div_eucl Z.of_N Z.to_N N.add N.mul N.div_eucl Z.eqb Z.ltb
-  wire respond start run prun pstart pstep valid_stype
+  wire respond start run prun pstart pstep valid_stype selected
   spec_start spec_step spec_run classify
   Gen.hsms.IsValidSType.
